@@ -158,7 +158,7 @@ class EngineWorld:
 
     def __init__(self, res: RunResult, rec: Recorder, *, recovery: bool = False, archiver: bool = False,
                  data_log_interval: float = 5.0, fs=None, extra_tags: list | None = None,
-                 extra_cmds: list | None = None) -> None:
+                 extra_cmds: list | None = None, totalizer: str = "both") -> None:
         self.res = res
         self.rec = rec
         self.clock = SimClock()
@@ -174,6 +174,7 @@ class EngineWorld:
         self.closed = False
         self.extra_tags = extra_tags
         self.extra_cmds = extra_cmds
+        self.totalizer = totalizer
         try:
             self._build(recovery, archiver, data_log_interval)
         except BaseException:
@@ -197,7 +198,7 @@ class EngineWorld:
         self.plog = ProbeLog()
         self.plog.on_event = self._probe_event
         self.uod = build_probe_uod(self.hw, self.plog, self.clock.read, data_log_interval,
-                                   extra_tags=self.extra_tags, extra_cmds=self.extra_cmds)
+                                   extra_tags=self.extra_tags, extra_cmds=self.extra_cmds, totalizer=self.totalizer)
         while not m_emb.frontend_logging_queue.empty():
             m_emb.frontend_logging_queue.get_nowait()
         timing = EngineTiming(_SimClockObj(self.clock), NullTimer(), 0.1, 1.0)
